@@ -286,6 +286,12 @@ def r6(cx):
     okfb = len(fb) >= 1 and all(any(k == "arg" and o == 1 for k, o in sl.origins(s.ops[0])) for s in fb) and \
            not any(cfg.edge_dominates(te, s.bb) for s in fb for tes in tests.values() for te in tes)
     cx.check(okfb, "C07.R6", "varlink:From<Reply>:fallback", fr.sp, "any other error name must map to VarlinkErrorReply carrying the whole reply", note_ok="_ => VarlinkErrorReply(e)")
+    # ... and only those: once a standard name has matched, the reply is that standard error whatever its parameters look like (is_error()
+    # decides by name alone; the two must agree)
+    leaks = sorted({name for name, tes in tests.items() for te in tes for s in fb if s.bb in cfg.after(te)})
+    cx.check(not leaks, "C07.R6", "varlink:From<Reply>:standard-name-is-decisive", fr.sp,
+             "a reply named org.varlink.service.%s can still come out as VarlinkErrorReply (e.g. when its parameters are absent or ill-typed): From<Reply> and is_error() then disagree about the same reply" % "/".join(leaks),
+             note_ok="a matched standard name always yields its own variant")
     # (ii) is_error: the same four names, compared for equality
     ie = cx.mir.one("varlink", "<impl error::ErrorKind>::is_error")
     cx.saw(ie)
